@@ -34,6 +34,9 @@ func New(c *l1.Conc, meta M) *Pair {
 		return out
 	}
 	cfg2 := l2.RunCfg{Accts: strs(m2["accts"]), Denoms: strs(m2["denoms"]), Funded: absx.Map(m2["funded"]), Params: absx.Map(m2["params"]), Devs: strs(m2["devs"])}
+	if pm, ok := m2["premeta"]; ok {
+		cfg2.PreMeta = strs(pm)
+	}
 	return &Pair{L1: l1.NewChain(c, cfg1), L2: l2.NewChain(c, cfg2), Trees: M{}}
 }
 
